@@ -146,17 +146,30 @@ Print Assumptions C19_prefilter_sound.
        time-outs, interleaved in ANY order.  The data replicated from the source is always exactly its first K
        entries, each once and in order, the recorded position is the K-th entry's, and what the sender regards as
        done lies within them: the position never covers an entry whose data is missing.
-       Explicit assumptions (modelled as guards of the events): a restarted learner replays its own raft log from a
-       point not beyond what the receiver covers (its own snapshot waits for the buffered logs); not "normal init"
-       mode (a skipped snapshot advances the position by the operator's decision). *)
+       TWO learners of the source are modelled (each forwarding or stand-by, roles switched at any time): a stand-by
+       passes an entry only once the receiver's position covers it; a learner's own raft snapshot is taken only with
+       its send buffer drained (GetSnapshot fails on the time-out), and a restarted learner replays from that snapshot.
+       For both learners, what they regard as done and the point they would replay from lie within the K entries.
+       Not modelled: "normal init" mode (a skipped snapshot advances the position by the operator's decision).
+       C19_learner_snapshot_with_backlog_refuted: if the learner's snapshot were taken with a backlog (a GetSnapshot that
+       swallows its time-out), a restart loses the backlog and the receiver ends with entry 3 under position (1,3)
+       but without entry 2. *)
 Theorem C19_sender_safety : forall c src evs,
   c <> 0 -> wf_source c src ->
   exists K,
     proj c (r_journal (n_cur (fst (sys_run c src evs)))) = map s_payload (firstn K src) /\
     synced_at src K (synced_of (n_cur (fst (sys_run c src evs))) c) /\
-    (sd_buf (snd (sys_run c src evs)) <= K)%nat.
+    (sd_buf (fst (snd (sys_run c src evs))) <= K)%nat /\ (sd_snap (fst (snd (sys_run c src evs))) <= K)%nat /\
+    (sd_buf (snd (snd (sys_run c src evs))) <= K)%nat /\ (sd_snap (snd (snd (sys_run c src evs))) <= K)%nat.
 Proof. exact sender_safety. Qed.
 Print Assumptions C19_sender_safety.
+
+Theorem C19_learner_snapshot_with_backlog_refuted :
+  r_journal (n_cur (fst (sys_run_loose 1 loose_src loose_evs))) = [(1, 10); (1, 30)] /\
+  synced_of (n_cur (fst (sys_run_loose 1 loose_src loose_evs))) 1 = Some (mkSS 1 3 1003) /\
+  r_journal (n_cur (fst (sys_run 1 loose_src loose_evs))) = [(1, 10); (1, 20); (1, 30)].
+Proof. exact learner_snapshot_with_backlog_refuted. Qed.
+Print Assumptions C19_learner_snapshot_with_backlog_refuted.
 
 (* (8) the receiver that is NOT syncer-only (Sync/Conflict.v: key versions, the conflict pre-check per command).
        The code runs the pre-check on live apply only (recheck = false): a restart changes the data — the open
@@ -267,13 +280,15 @@ Proof. vm_compute. repeat split; reflexivity. Qed.
    hand-over for the raft snapshot covering 2 entries whose first apply finds no checkpoint, a receiver crash, then
    the rest: everything arrives, once *)
 Definition ex_evs : list ev :=
-  [EFeed; ESend FRespLost; EFeed; ESend FReqLost; ESenderRestart 1;
+  [EFeed true; ESend true FRespLost; EFeed true; ESend true FReqLost; EFeed false; ELearnerSnapshot true;
+   ELearnerRestart true; EFeed true;
    ENotifyTransfer 2 FNone; ENotifyApply 2 false FRespLost; ENotifyTransfer 2 FNone; ENotifyApply 2 true FNone;
-   ERecv ORestart; ESnapDone 2; EFeed; ESend FNone; ERecv OSnap; ERecv ORestart].
+   ERecv ORestart; ESnapDone true 2; EFeed false; EFeed false; ESwitch true false; ESwitch false true;
+   EFeed false; ESend false FNone; ERecv OSnap; ERecv ORestart].
 
 Example C19_ex_sys :
   r_journal (n_cur (fst (sys_run 1 ex_src ex_evs))) = [(1, 250); (1, 300); (1, 400)] /\
-  sd_buf (snd (sys_run 1 ex_src ex_evs)) = 3%nat.
+  sd_buf (snd (snd (sys_run 1 ex_src ex_evs))) = 3%nat.
 Proof. vm_compute. split; reflexivity. Qed.
 
 (* X1: what the well-formedness hypothesis is for.  (a) a source "log" whose term decreases: the later entry
